@@ -342,8 +342,12 @@ def make_trace_hdd(tid, rng, nops=30, **opt):
         rng.shuffle(shots)
         enc_hds.write_hdd_dir(d, storages, shots, files, top_guid=g)
         size_b = start * cs
-        s = HDD(Path(d)).open()
-        fresh = HDD(Path(d)).open()
+        # one HDD object hands out several streams (what is opened earlier must not matter to what is opened later)
+        hdd = HDD(Path(d))
+        first = hdd.open()
+        first.read(min(size_b, 4096))
+        s = hdd.open() if rng.random() < 0.7 else HDD(Path(d)).open()
+        fresh = hdd.open()
         rec = record.Recorder(s, size_b, probe=fresh.readoffset, align=opt.get("align"))
         record.random_ops(rec, rng, size_b, nops, unit=cs, big=min(6 * cs + 4096, 1 << 20))
         geo = {"cellB": cs, "cb": 1, "stride": cs, "bases": bases if depth == 1 else [0] * (k * FM), "pbase": 0}
